@@ -320,4 +320,43 @@ func streamPlan() {
 		}
 		out.WriteString(planRow(ents, st))
 	}
+	// 4. larger hierarchies: long chains, wide fans and random forests of 20-60 entities (a bound on depth, queue length or
+	//    recursion in the planner would show here)
+	big := 200
+	if thorough() {
+		big = 3000
+	}
+	for i := 0; i < big; i++ {
+		k := 20 + rng.Intn(41)
+		ents := make([]pent, k)
+		shape := i % 4
+		for j := range ents {
+			ents[j] = ls[rng.Intn(len(ls))]
+			if rng.Intn(3) != 0 {
+				ents[j] = ls[0]
+			}
+			ents[j].issuer = -1
+			switch {
+			case j == 0:
+			case shape == 0:
+				ents[j].issuer = j - 1 // one chain
+			case shape == 1:
+				ents[j].issuer = 0 // one fan
+			case shape == 2:
+				ents[j].issuer = rng.Intn(j)
+			default:
+				if rng.Intn(8) != 0 {
+					w := 3
+					if j < w {
+						w = j
+					}
+					ents[j].issuer = j - 1 - rng.Intn(w)
+				}
+			}
+			ents[j].fileT = 1 + rng.Intn(4)
+			ents[j].cfgT = 1 + rng.Intn(4)
+			ents[j].valid = true
+		}
+		out.WriteString(planRow(ents, []int{9, 1, 8, 4, 2, 13, 16, 12}[rng.Intn(8)]))
+	}
 }
